@@ -14,6 +14,7 @@ import (
 	"time"
 
 	enc "github.com/named-data/ndnd/std/encoding"
+	"github.com/named-data/ndnd/std/ndn"
 	spec "github.com/named-data/ndnd/std/ndn/spec_2022"
 
 	"verif/harness/internal/modelreg"
@@ -67,14 +68,28 @@ func buildTargets(st *modelreg.State) []target {
 	ts = append(ts,
 		target{name: "spec_2022.ReadPacket", conform: pkt, run: func(r enc.ParseReader, _ []byte) (any, error) {
 			p, _, err := spec.ReadPacket(r)
+			if err == nil && p != nil {
+				if p.Data != nil {
+					touchData(p.Data)
+				}
+				if p.Interest != nil {
+					touchInterest(p.Interest)
+				}
+			}
 			return nilIfNilPtr(p, err)
 		}},
 		target{name: "spec_2022.Spec.ReadInterest", conform: pkt, run: func(r enc.ParseReader, _ []byte) (any, error) {
 			i, _, err := spec.Spec{}.ReadInterest(r)
+			if err == nil && i != nil {
+				touchInterest(i)
+			}
 			return nilIfNilPtr(i, err)
 		}},
 		target{name: "spec_2022.Spec.ReadData", conform: pkt, run: func(r enc.ParseReader, _ []byte) (any, error) {
 			d, _, err := spec.Spec{}.ReadData(r)
+			if err == nil && d != nil {
+				touchData(d)
+			}
 			return nilIfNilPtr(d, err)
 		}},
 		target{name: "enc.NameFromBytes", bytesOnly: true, run: func(_ enc.ParseReader, raw []byte) (any, error) {
@@ -250,4 +265,48 @@ func structFields(st *modelreg.State, m *modelreg.Model) map[uint64]*modelreg.Mo
 	}
 	sfCache[m] = out
 	return out
+}
+
+// The packet decoders hand out objects whose accessors decode some parts on demand (a Data's
+// FinalBlockId is parsed when asked for). They are part of the decoder: every accessor of an
+// accepted packet is called inside the guarded call (seeded C04-r7-2: FinalBlockID() trusted the
+// length of the nested component).
+func touchSig(s ndn.Signature) {
+	if s == nil || reflect.ValueOf(s).IsNil() {
+		return
+	}
+	_ = s.SigType()
+	_ = s.KeyName()
+	_ = s.SigNonce()
+	_ = s.SigTime()
+	_ = s.SigSeqNum()
+	_, _ = s.Validity()
+	_ = s.SigValue()
+}
+
+func touchData(d ndn.Data) {
+	if d == nil || reflect.ValueOf(d).IsNil() {
+		return
+	}
+	_ = d.Name()
+	_ = d.ContentType()
+	_ = d.Freshness()
+	_ = d.FinalBlockID()
+	_ = d.Content()
+	touchSig(d.Signature())
+}
+
+func touchInterest(i ndn.Interest) {
+	if i == nil || reflect.ValueOf(i).IsNil() {
+		return
+	}
+	_ = i.Name()
+	_ = i.CanBePrefix()
+	_ = i.MustBeFresh()
+	_ = i.ForwardingHint()
+	_ = i.Nonce()
+	_ = i.Lifetime()
+	_ = i.HopLimit()
+	_ = i.AppParam()
+	touchSig(i.Signature())
 }
